@@ -5,6 +5,7 @@ package main
 import (
 	"fmt"
 	"go/token"
+	"strings"
 
 	"golang.org/x/tools/go/ssa"
 )
@@ -12,7 +13,7 @@ import (
 func init() {
 	register(&propDef{
 		id:      "C13",
-		explain: "Structural necessary conditions of 'the worker pool never exceeds its bound, serves every accepted connection exactly once and leaves no worker behind after Stop': (E8) ready, workersCount and mustStop are only accessed with workerPool.lock held; (R1) a worker is created only under workersCount < MaxWorkersCount, with the increment in the same critical section, and the goroutine is started exactly on that path; every exit of workerFunc decrements workersCount under the lock; (R2) in each iteration of the worker loop WorkerFunc is called exactly once and followed by exactly one terminal action: Close + StateClosed, or StateHijacked on errHijacked; (R3) Serve sends the connection to exactly one worker channel when it returns true and to none when it returns false; (R4) release re-adds a worker to ready only when mustStop was found false in the same critical section; (R5) Stop detaches the ready list and sets mustStop within one critical section (no unlock in between on any path), so a worker finishing during Stop cannot re-enter ready unnoticed. workersCount is assigned only by getCh (+1) and by workerFunc (-1, at most once per path), by exactly one, from its own previous value; Not decided: interleavings of Stop with the idle cleaner, idle retirement timing.",
+		explain: "Structural necessary conditions of 'the worker pool never exceeds its bound, serves every accepted connection exactly once and leaves no worker behind after Stop': (E8) ready, workersCount and mustStop are only accessed with workerPool.lock held; (R1) a worker is created only under workersCount < MaxWorkersCount, with the increment in the same critical section, and the goroutine is started exactly on that path; every exit of workerFunc decrements workersCount under the lock; (R2) in each iteration of the worker loop WorkerFunc is called exactly once and followed by exactly one terminal action: Close + StateClosed, or StateHijacked on errHijacked; (R3) Serve sends the connection to exactly one worker channel when it returns true and to none when it returns false; (R4) release re-adds a worker to ready only when mustStop was found false in the same critical section; (R5) Stop detaches the ready list and sets mustStop within one critical section (no unlock in between on any path), so a worker finishing during Stop cannot re-enter ready unnoticed. workersCount is assigned only by getCh (+1) and by workerFunc (-1, at most once per path), by exactly one, from its own previous value; (R6) every path of release to the append that makes the worker idle stores a fresh clock reading into that worker's lastUseTime - the stamp the idle cleaner compares with MaxIdleWorkerDuration is the moment the worker became idle. Not decided: interleavings of Stop with the idle cleaner, the cleaner's own arithmetic.",
 		run:     runC13,
 	})
 }
@@ -302,6 +303,75 @@ func runC13(p *Prog, r *Report) {
 			}
 		}
 		r.Floor("R4", "stores to ready in release", n, 1)
+	}
+
+	// ---- R6: the stamp the idle cleaner compares is taken when the worker becomes idle ----
+	// clean retires the workers whose lastUseTime is older than MaxIdleWorkerDuration, so the field must hold the
+	// moment the worker went back to ready: every path of release to the append passes a store of a fresh clock
+	// reading into the lastUseTime of the worker that is appended.
+	{
+		n := 0
+		var ch ssa.Value
+		for _, prm := range release.Params {
+			if strings.HasSuffix(prm.Type().String(), "workerChan") {
+				ch = prm
+			}
+		}
+		stamps := func(i ssa.Instruction) bool {
+			st, ok := i.(*ssa.Store)
+			if !ok || ch == nil {
+				return false
+			}
+			base, fv := fieldOfAddr(st.Addr)
+			if fv == nil || fv.Name() != "lastUseTime" || base == nil || !derivesFromValue(base, ch) {
+				return false
+			}
+			// a clock reading taken in this function: a call that returns a time.Time
+			fresh := false
+			var walk func(v ssa.Value, d int)
+			walk = func(v ssa.Value, d int) {
+				if d > 6 || fresh {
+					return
+				}
+				switch x := v.(type) {
+				case *ssa.Call:
+					if strings.HasSuffix(x.Type().String(), "time.Time") {
+						fresh = true
+					}
+				case *ssa.Phi:
+					all := len(x.Edges) > 0
+					for _, e := range x.Edges {
+						fresh = false
+						walk(e, d+1)
+						all = all && fresh
+					}
+					fresh = all
+				case *ssa.UnOp:
+					if al, ok := x.X.(*ssa.Alloc); ok {
+						for _, ref := range *al.Referrers() {
+							if s2, ok := ref.(*ssa.Store); ok && s2.Addr == ssa.Value(al) {
+								walk(s2.Val, d+1)
+							}
+						}
+					}
+				}
+			}
+			walk(st.Val, 0)
+			return fresh
+		}
+		for _, b := range release.Blocks {
+			for _, in := range b.Instrs {
+				st := isFieldStore(in, "ready")
+				if st == nil {
+					continue
+				}
+				n++
+				hit, path := reachAvoiding(release, nil, func(i ssa.Instruction) bool { return i == ssa.Instruction(st) }, stamps, nil)
+				r.Check("R6", "release stamps the worker's lastUseTime with a fresh clock reading before it re-adds it to ready", hit == nil, p.Pos(st.Pos()),
+					"the append to ready is reachable without a store of a clock reading into the appended worker's lastUseTime: the idle cleaner compares that field with now - MaxIdleWorkerDuration, so a worker whose stamp is older than its return to the idle list (taken when it was handed out, say) is retired although it has not been idle that long - after one long connection, at once", blocksString(p, path)...)
+			}
+		}
+		r.Floor("R6", "stores to ready in release checked for the idle stamp", n, 1)
 	}
 
 	// ---- R5: Stop detaches ready and sets mustStop in one critical section ----
